@@ -293,8 +293,12 @@ def index_dump(d):
     return out
 
 
-def judge_content(dump, content, label):
+_EMPTIED = {}
+
+
+def judge_content(dump, content, label, stats=None):
     idx = index_dump(dump)
+    emptied = {}     # what became of the loops that were let start but whose packets were all bypassed
     for path, exp in content.items():
         got = idx.get(path)
         if exp['status'] == 'bypassed':
@@ -337,6 +341,8 @@ def judge_content(dump, content, label):
             must = [D.canon_packet(v) for st, v in pks if st == 'stored']
             maybe = [D.canon_packet(v) for st, v in pks if st == 'dontcare']
             gl = list(gpk or ())
+            if pks and not must and not maybe:
+                emptied.setdefault('dropped' if gpk is None else 'kept-without-packets', []).append((path, tuple(names)))
             for m in must:
                 if m in gl:
                     gl.remove(m)
@@ -347,6 +353,17 @@ def judge_content(dump, content, label):
                 raise Mismatch('stored:bypassed-packet-present:%s' % label, 'loop %r in %r holds %d packet(s) that the handler bypassed: %s' % (names, path, len(gl) - len(maybe), short(gl)))
         if loops_got:
             raise Mismatch('stored:unexpected-loop:%s' % label, 'unexpected loops %r in %r' % (sorted(loops_got), path))
+    if stats is not None:
+        for k, v in emptied.items():
+            stats[k] = stats.get(k, 0) + len(v)
+    if stats is not None and len(emptied) > 1:
+        # whether a loop all of whose packets were bypassed remains as a loop without packets is not stated (the parser
+        # drops it with the other data-less loops when its container ends) - but a parse that ran to the end of the
+        # document cannot do both: the fate of
+        # such a loop would then hang on something other than the document and the handler's answers ("everything else
+        # is stored as in an unfiltered parse")
+        raise Mismatch('stored:all-bypassed-loop:inconsistent:%s' % label, 'loops whose packets were all bypassed: %r dropped but %r kept without packets in the same parse'
+                       % (emptied['dropped'][:2], emptied['kept-without-packets'][:2]))
 
 
 def canon_packet(vals):
@@ -446,7 +463,9 @@ def run_program(L, data, evs, root, program, label, mode, info, collect=None, om
             raise Mismatch('events:rc:%s:want%d:got%d' % (label, want_rc, res.rc), 'cif_parse returned %d, expected %d [program %r, %s]' % (res.rc, want_rc, describe(program, evs), mode))
         if mode == 'store':
             d = D.dump(L, res.cif)
-            judge_content(d, content, label)
+            # (a parse that a handler ended or aborted leaves its open containers as they were at that moment)
+            whole = want_rc == 0 and all(a in (0, TRAVERSE_SKIP_CURRENT, TRAVERSE_SKIP_SIBLINGS) for a in program.values())
+            judge_content(d, content, label, _EMPTIED if whole else None)
         if collect is not None:
             collect['handler'] = [(k, p) for k, p in res.rec.events]
             collect['syntax'] = res.syntax
@@ -597,6 +616,13 @@ def run_document(ctx, L, n):
         for i in range(nev):
             for a in ANSWERS:
                 progs.append(('single:%s:%s' % (evs[i].kind, answer_name(a)), {i: a}))
+        # one answer given by every callback of a kind: whole layers of the document bypassed at once (every packet of
+        # every loop, every loop, every frame ...), in containers that precede and follow others
+        for kind in ('packet_start', 'packet_end', 'loop_start', 'loop_end', 'item', 'frame_start', 'block_start'):
+            ids = [i for i in range(nev) if evs[i].kind == kind]
+            for a in (TRAVERSE_SKIP_CURRENT, TRAVERSE_SKIP_SIBLINGS):
+                if ids:
+                    progs.append(('every:%s:%s' % (kind, answer_name(a)), dict((i, a) for i in ids)))
         if ctx.tier != 'quick':
             for _ in range(ctx.params['pair_programs']):
                 i, j = sorted(rng.sample(range(nev), 2)) if nev >= 2 else (0, 0)
@@ -657,6 +683,9 @@ def worker(ctx):
         ctx.begin(i)
         ctx.count('documents')
         run_document(ctx, L, i)
+        for k, v in _EMPTIED.items():
+            ctx.count('loops_with_all_packets_bypassed_' + k.replace('-', '_'), v)
+        _EMPTIED.clear()
 
 
 def run(env):
@@ -680,6 +709,8 @@ def run(env):
             datanames_checked=res.count('datanames_checked'), keywords_checked=res.count('keywords_checked'),
             whitespace_units_checked=res.count('whitespace_units_checked'),
             programs_run_with_null_handler_members=res.count('programs_with_null_handler_members'),
+            loops_with_all_packets_bypassed_dropped=res.count('loops_with_all_packets_bypassed_dropped'),
+            loops_with_all_packets_bypassed_kept_without_packets=res.count('loops_with_all_packets_bypassed_kept_without_packets'),
             categories_assigned_in_loop_start_callbacks=res.count('categories_assigned'),
             documents_whose_assigned_categories_were_all_found_stored=res.count('documents_whose_assigned_categories_were_all_found_stored'),
             category_calls_at_parse_time_observed_not_judged=sorted(res.sets.get('category_calls_at_parse_time', ())),
